@@ -3,3 +3,11 @@ import Skv.Props.C16
 #print axioms C16_block_guard
 #print axioms C16_checksum_bytes_guard
 #print axioms C16_no_unguarded_byte
+#print axioms C12_roundtrip
+#print axioms C12_resume
+#print axioms C12_resume_twice
+#print axioms C12_repair_clean
+#print axioms C12_repair_idempotent
+#print axioms C12_repair_reads_back
+#print axioms C12_append_after_repair
+#print axioms C12_consts_ok
